@@ -39,11 +39,16 @@ type lemmaParts struct {
 	conclude *SExp
 	induct   string
 	lo       *SExp
+	step     *SExp
+	useLemmas []*SExp
+	names    map[string]int // named hypotheses
+	insts    []*SExp        // explicit instantiations of named quantified hypotheses
+	hidden   map[int]bool   // hypotheses not shown to the solver in this lemma's own proof
 	lets     [][2]*SExp
 }
 
 func (p *Prog) parseLemma(l *LemmaDecl) (*lemmaParts, error) {
-	lp := &lemmaParts{name: l.X.List[1].Atom, sorts: map[string]*Sort{}}
+	lp := &lemmaParts{name: l.X.List[1].Atom, sorts: map[string]*Sort{}, names: map[string]int{}, hidden: map[int]bool{}}
 	for _, c := range expandFor(l.X.List[2:]) {
 		args := c.List[1:]
 		switch c.Head() {
@@ -63,16 +68,30 @@ func (p *Prog) parseLemma(l *LemmaDecl) (*lemmaParts, error) {
 		case "let":
 			lp.lets = append(lp.lets, [2]*SExp{args[0], args[1]})
 		case "assume":
-			lp.assumes = append(lp.assumes, args[0])
+			if len(args) == 2 {
+				lp.assumes = append(lp.assumes, args[1])
+				lp.names[args[0].Atom] = len(lp.assumes) - 1
+			} else {
+				lp.assumes = append(lp.assumes, args[0])
+			}
+		case "instantiate":
+			lp.insts = append(lp.insts, c)
+		case "hide":
+			lp.hidden[lp.names[args[0].Atom]] = true
 		case "unfold":
 			lp.unfolds = append(lp.unfolds, expandFor(args)...)
 		case "goal":
 			lp.goals = append(lp.goals, &Clause{Label: args[0].Atom, X: args[1]})
 		case "conclude":
 			lp.conclude = args[0]
+		case "use-lemma":
+			lp.useLemmas = append(lp.useLemmas, c)
 		case "induct":
 			lp.induct = args[0].Atom
 			lp.lo = args[1]
+			if len(args) > 2 {
+				lp.step = args[2]
+			}
 		default:
 			return nil, fmt.Errorf("lemma %s: unknown clause %s", lp.name, c.Head())
 		}
@@ -92,8 +111,45 @@ func (p *Prog) lemmaInstance(lp *lemmaParts, bind map[string]Val, st *State) (hy
 	for _, a := range lp.assumes {
 		hyps = append(hyps, p.elabT(nil, a, env))
 	}
+	if lp.induct != "" && lp.step != nil {
+		// induction in steps: the statement only speaks about n = lo + k*step
+		n := env.vars[lp.induct].L[0]
+		lo := coerceTo(p.elabT(nil, lp.lo, env), n.S)
+		stp := coerceTo(p.elabT(nil, lp.step, env), n.S)
+		hyps = append(hyps, Eq(BVOp("bvurem", BVOp("bvsub", n, lo), stp), BVConst(0, n.S.W)))
+	}
 	for _, u := range lp.unfolds {
 		unf = append(unf, p.unfoldInstance(nil, u, env))
+	}
+	for _, in := range lp.insts {
+		// (instantiate H (v term)...): ground instance of a named universally quantified hypothesis,
+		// built (and normalised) by the generator
+		idx, ok := lp.names[in.List[1].Atom]
+		if !ok {
+			efail("instantiate: unknown hypothesis %s", in.List[1].Atom)
+		}
+		h := hyps[idx]
+		if h.Op != "forall" {
+			efail("instantiate: hypothesis %s is not universally quantified", in.List[1].Atom)
+		}
+		nb := len(h.Args) - 1
+		sub := map[*Term]*Term{}
+		for _, b := range in.List[2:] {
+			for _, bv := range h.Args[:nb] {
+				if bv.Name == b.List[0].Atom {
+					sub[bv] = coerceTo(p.elabT(nil, b.List[1], env), bv.S)
+				}
+			}
+		}
+		if len(sub) != nb {
+			efail("instantiate %s: must bind all %d variables", in.List[1].Atom, nb)
+		}
+		unf = append(unf, Subst(h.Args[nb], sub))
+	}
+	for _, ul := range lp.useLemmas {
+		// instance of another (separately proved) lemma
+		x := &SExp{IsL: true, List: append([]*SExp{{Atom: "apply-lemma"}}, ul.List[1:]...)}
+		unf = append(unf, p.applyLemma(nil, x, env))
 	}
 	if lp.conclude != nil {
 		concl = p.elabT(nil, lp.conclude, env)
@@ -132,7 +188,14 @@ func (p *Prog) elabLemma(l *LemmaDecl) (obs []*Obligation, err error) {
 	}
 	if lp.induct == "" {
 		hyps, unf, concl := p.lemmaInstance(lp, bind, st)
-		assume := append(append([]*Term{}, hyps...), unf...)
+		var assume []*Term
+		for i, h := range hyps {
+			if i < len(lp.assumes) && lp.hidden[i] {
+				continue
+			}
+			assume = append(assume, h)
+		}
+		assume = append(assume, unf...)
 		env := &Env{st: st, old: st, vars: bind}
 		for _, lt := range lp.lets {
 			env.vars[lt[0].Atom] = p.elab(nil, lt[1], env)
@@ -156,17 +219,42 @@ func (p *Prog) elabLemma(l *LemmaDecl) (obs []*Obligation, err error) {
 		bBase[k], bNext[k] = v, v
 	}
 	bBase[lp.induct] = tv(loT)
-	bNext[lp.induct] = tv(BVOp("bvadd", n, BVConst(1, n.S.W)))
+	stepT := BVConst(1, n.S.W)
+	if lp.step != nil {
+		stepT = coerceTo(p.elabT(nil, lp.step, &Env{st: st, old: st, vars: bind}), n.S)
+	}
+	bNext[lp.induct] = tv(BVOp("bvadd", n, stepT))
+	vis := func(hs []*Term) []*Term {
+		var out []*Term
+		for i, h := range hs {
+			if i < len(lp.assumes) && lp.hidden[i] {
+				continue
+			}
+			out = append(out, h)
+		}
+		return out
+	}
 	hB, uB, cB := p.lemmaInstance(lp, bBase, st)
-	mk("base", append(append([]*Term{}, hB...), uB...), cB, false)
-	hN, uN, cN := p.lemmaInstance(lp, bind, st)
+	mk("base", append(vis(hB), uB...), cB, false)
+	hN, _, cN := p.lemmaInstance(lp, bind, st)
 	hS, uS, cS := p.lemmaInstance(lp, bNext, st)
 	var assume []*Term
-	assume = append(assume, hS...)
-	assume = append(assume, uN...)
+	assume = append(assume, vis(hS)...)
 	assume = append(assume, uS...)
-	assume = append(assume, Implies(And(hN...), cN))
-	assume = append(assume, BVOp("bvule", loT, n), Not(Eq(bNext[lp.induct].L[0], BVConst(0, n.S.W))))
+	// induction hypothesis: hypotheses of the statement that do not mention n are the very same terms
+	// as the step's own hypotheses and need not be re-established
+	inS := map[*Term]bool{}
+	for _, h := range hS {
+		inS[h] = true
+	}
+	var ihHyp []*Term
+	for _, h := range hN {
+		if !inS[h] {
+			ihHyp = append(ihHyp, h)
+		}
+	}
+	assume = append(assume, Implies(And(ihHyp...), cN))
+	assume = append(assume, BVOp("bvule", loT, n), BVOp("bvult", n, bNext[lp.induct].L[0]))
 	mk("step", assume, cS, false)
 	mk("canary", assume, False(), true)
 	return obs, nil
